@@ -33,10 +33,10 @@ ASSUMPTIONS = [
     "billing regime is fixed by the base calendar (calendar months, 30-day, 29/32 alternation = monthly; 61-day = "
     "bi-monthly); with <= 2 of 12-13 periods replaced the median period stays inside the regime, so every reasonable "
     "regime detection agrees",
-    "period length: a period of exactly 25 / 35 / 70 calendar days that contains a DST change is 1 hour shorter/longer "
-    "than 25 / 35 / 70 x 24 h; counting calendar days and counting elapsed days disagree there, so both 'kept' (sum == "
-    "bill) and 'dropped' (all NaN) are accepted for such a period; everywhere else the two countings agree and the "
-    "oracle is strict",
+    "period length = number of local calendar days between two reads (reads are aligned to local midnight): a period of "
+    "exactly 25 / 35 / 70 calendar days that contains a DST change is 1 hour shorter/longer than that many 24-hour days and "
+    "is still a valid 25 / 35 / 70-day period (the library's own comment in clean_billing_data says the same); the oracle is "
+    "strict everywhere",
     "entry conventions as documented: from_series - the final NaN read closes the last period; frame_lastday - rows "
     "up to and including the last day of the last period, final row NaN (code comment in from_series: 'dataframe input "
     "assumes final row is part of period'); frame_extra - an extra non-NaN row at the closing read date (class "
@@ -121,7 +121,14 @@ CALENDARS = {
     # cadences at the edges of what still is a monthly cycle (the typical period decides which limits apply)
     "cycle34": (dt.date(2021, 1, 5), [34] * 11, "monthly"),
     "cycle26": (dt.date(2021, 1, 5), [26] * 14, "monthly"),
+    # perfectly regular cycles whose frequency pandas infers as a CALENDAR offset (4W-MON, 5W-MON, 8W-MON, BMS) rather than
+    # as a number of days; enumerated without deviations (one replaced period makes the index irregular = the calendars above)
+    "cycle28w": (dt.date(2021, 1, 4), [28] * 13, "monthly"),
+    "cycle35w": (dt.date(2021, 1, 4), [35] * 10, "monthly"),
+    "cycle56w": (dt.date(2020, 11, 2), [56] * 8, "bimonthly"),
+    "bizmonth": (dt.date(2021, 1, 1), [31, 28, 31, 32, 29, 30, 32, 30, 30, 31, 30, 33], "monthly"),
 }
+NO_DEVIATIONS = {"cycle28w", "cycle35w", "cycle56w", "bizmonth"}
 
 
 def billing_calendar(case):
@@ -316,6 +323,8 @@ def billing_cases(tier):
             break
         for cal, (_, lens, _) in CALENDARS.items():
             n = len(lens)
+            if d and cal in NO_DEVIATIONS:
+                continue
             for positions in itertools.combinations(range(n), d):
                 for lengths in itertools.product(DEV_LENGTHS, repeat=d):
                     dev = [[p, l] for p, l in zip(positions, lengths)]
